@@ -358,12 +358,30 @@ func run(id, tier string, seed int64, rp *Replay, only, onlyCfg string, par int)
 			bch <- bres{k, err, out}
 		}()
 	}
+	// A unit whose monitors do not compile against this tree (a white-box
+	// monitor calling an internal function whose signature changed) is reported
+	// as inconclusive; the other units still run, and what they find counts.
+	failedBuild := map[string]bool{}
+	var buildInconclusive []string
 	for range bkeys {
 		r := <-bch
 		if r.err != nil {
 			os.WriteFile(filepath.Join(bdir, "run", "build-failure.txt"), []byte(r.out), 0o644)
 			fmt.Printf("%s\n", tailStr(r.out, 3000))
-			fatal(2, "build failed for %s (harness does not compile against this tree)", r.key)
+			failedBuild[builds[r.key]] = true
+			buildInconclusive = append(buildInconclusive, fmt.Sprintf("build failed for %s (harness does not compile against this tree)", r.key))
+		}
+	}
+	if len(failedBuild) > 0 {
+		var kept []*job
+		for _, j := range jobs {
+			if !failedBuild[j.bin] {
+				kept = append(kept, j)
+			}
+		}
+		jobs = kept
+		if len(jobs) == 0 {
+			fatal(2, "%s", strings.Join(buildInconclusive, "; "))
 		}
 	}
 	buildWall := time.Since(t0).Seconds()
@@ -408,7 +426,7 @@ func run(id, tier string, seed int64, rp *Replay, only, onlyCfg string, par int)
 		vioByKey[v.Key] = &vrec{v, j, n}
 		keys = append(keys, v.Key)
 	}
-	inconclusive := []string{}
+	inconclusive := append([]string{}, buildInconclusive...)
 	evalByCfg := map[string]int64{}
 	distByCfg := map[string]int64{}
 	countersByCfg := map[string]map[string]int64{}
